@@ -8,11 +8,26 @@ CONSTANTS
   NCat <- Cat
   MaxRec = 3
   IdChoices = {1000, 7, 8}
+  Pops = {0}
+  Alls = {TRUE}
+  Bests = {0}
+  Sources = FALSE
 INVARIANT RtLog
 INVARIANT RtLogAll
+INVARIANT RtLogBest
+INVARIANT RtNever
+INVARIANT MonHoldsAll
 INVARIANT RtHist
 INVARIANT RtRaw
 INVARIANT RtSupport
 INVARIANT RtConverge
 INVARIANT HistIsSupport
+INVARIANT RtHistMon
+INVARIANT RtIds
+INVARIANT RtReadSupport
+INVARIANT RtReadConverge
+INVARIANT ConvIsSupport
+INVARIANT RtOld
+INVARIANT RtLoad
+INVARIANT RtMeasures
 INVARIANT Emit
